@@ -209,17 +209,58 @@ pub fn case(rng: &mut Rng) -> String {
     out.push(' ');
     enc::vec(&mut out, &c);
     out.push_str(" | ");
+    // The answers must be a function of the program alone.  In a quarter of the cases a *different* program is solved
+    // immediately before each call (same thread): the same numbers in the transposed shape, the same system with one
+    // entry changed, or the same system with another objective.  Its answer is discarded; the case line is unchanged.
+    let warm_mode = if rng.chance(1, 4) { 1 + rng.below(3) } else { 0 };
+    let warm_pos = rng.below(1 << 16);
+    let warm = |obj: &Array1<f64>| {
+        if warm_mode == 0 {
+            return;
+        }
+        let (m, n) = (p.n_constraints(), p.indim());
+        let (wp, wc) = match warm_mode {
+            1 => {
+                let flat: Vec<f64> = p.mat.iter().chain(p.bias.iter()).chain(obj.iter()).copied().collect();
+                let mat = Array2::from_shape_vec((n, m), flat[..m * n].to_vec()).unwrap();
+                let bias = Array1::from(flat[m * n..m * n + n].to_vec());
+                (Polytope::from_mats(mat, bias), Array1::from(flat[m * n + n..].to_vec()))
+            }
+            2 => {
+                let mut q = Polytope::from_mats(p.mat.to_owned(), p.bias.to_owned());
+                if n > 0 && warm_pos % 2 == 0 {
+                    let (i, j) = ((warm_pos / 2) % m, (warm_pos / 64) % n);
+                    q.mat[[i, j]] += 1.0;
+                } else {
+                    q.bias[(warm_pos / 2) % m] -= 3.0;
+                }
+                (q, obj.clone())
+            }
+            _ => {
+                let mut o = obj.clone();
+                if n > 0 {
+                    o[warm_pos % n] += if warm_pos % 4 < 2 { 1.0 } else { -1.0 };
+                }
+                (Polytope::from_mats(p.mat.to_owned(), p.bias.to_owned()), o)
+            }
+        };
+        let _ = catch_unwind(AssertUnwindSafe(|| wp.solve_linprog(wc, false)));
+    };
+    let zeros = Array1::zeros(n);
+    warm(&zeros);
     let st = catch_unwind(AssertUnwindSafe(|| p.status()));
     match &st {
         Ok(s) => out.push_str(&status_str(s)),
         Err(_) => out.push_str("panic"),
     }
     out.push(' ');
+    warm(&zeros);
     match catch_unwind(AssertUnwindSafe(|| p.is_feasible())) {
         Ok(b) => write!(out, "{}", if b { 1 } else { 0 }).unwrap(),
         Err(_) => out.push_str("panic"),
     }
     out.push(' ');
+    warm(&c);
     match catch_unwind(AssertUnwindSafe(|| p.solve_linprog(c.clone(), false))) {
         Ok(s) => out.push_str(&status_str(&s)),
         Err(_) => out.push_str("panic"),
@@ -247,7 +288,13 @@ pub fn case(rng: &mut Rng) -> String {
 /// C15: the clean-up operations on the same classes of systems
 pub fn cleanup_case(rng: &mut Rng) -> String {
     let op = rng.below(7);
-    let p = rand_system(rng, op != 2 && op != 6);
+    let mut p = rand_system(rng, op != 2 && op != 6);
+    // systems over the zero-dimensional space (rows `0 <= b`): empty iff some bias is negative
+    if rng.chance(1, 12) {
+        let m = 1 + rng.below(4);
+        let bias: Vec<f64> = (0..m).map(|_| *rng.pick(&[0.0, 1.0, -1.0, 2.0, 3.0, -1.0, 4.0])).collect();
+        p = Polytope::from_mats(Array2::zeros((m, 0)), Array1::from(bias));
+    }
     let mut out = String::from("C15 ");
     let name = ["remove_tautologies", "remove_duplicate_rows", "remove_redundant", "normalize", "remove_zero_rows", "remove_rows", "remove_redundant"][op];
     write!(out, "{} ", name).unwrap();
